@@ -107,4 +107,77 @@ theorem filtered_exact (env : Env) (tbl : Nat → Leaf) (repo : Repo) (S : Sorte
     (fun pk => pmatches env tbl mask pk == sentinel)
   simpa only [pmatches_eq_holds] using h
 
+/-! ## stacks of stacks
+
+A member of a `multiplex.tree` only has to offer `itermatch`; it may itself be a stack — `multiplex.tree(multiplex.tree(a, b), c)`, and
+`stack + stack` (`__add__` appends the other stack as one member).  `multiplex.tree.itermatch` (default sorter) chains the members'
+`itermatch` whatever they are, so the nesting is irrelevant: the answer is that of the flat stack of the leaves.  (The definitions live
+here, next to the theorem that uses them, so that the model / proof modules and the driver are unchanged; the real nested stacks are compared
+with the union of the leaves' brute-force answers by the harness.) -/
+
+/-- a member of a stack is a repository or again a stack -/
+inductive Stack where
+  | repo (t : Repo)
+  | mux (members : List Stack)
+
+mutual
+/-- the repositories at the leaves, in stacking order -/
+def Stack.leaves : Stack → List Repo
+  | .repo t => [t]
+  | .mux ms => leavesL ms
+def leavesL : List Stack → List Repo
+  | [] => []
+  | s :: ss => s.leaves ++ leavesL ss
+end
+
+mutual
+/-- `itermatch` of a member: a repository answers itself, a stack chains its members' answers (`multiplex.tree.itermatch`) -/
+def stackMatch (env : Env) (tbl : Nat → Leaf) (S : Sorter) (versioned : Bool) (r : R) : Stack → List Pkg
+  | .repo t => itermatch env tbl t S versioned r
+  | .mux ms => stackMatchL env tbl S versioned r ms
+def stackMatchL (env : Env) (tbl : Nat → Leaf) (S : Sorter) (versioned : Bool) (r : R) : List Stack → List Pkg
+  | [] => []
+  | s :: ss => stackMatch env tbl S versioned r s ++ stackMatchL env tbl S versioned r ss
+end
+
+mutual
+/-- nesting is irrelevant: a stack of stacks answers like the flat stack of its leaves -/
+theorem stackMatch_flat (env : Env) (tbl : Nat → Leaf) (S : Sorter) (versioned : Bool) (r : R) :
+    (s : Stack) → stackMatch env tbl S versioned r s = multiplexMatch env tbl s.leaves S versioned r
+  | .repo t => by simp [stackMatch, Stack.leaves, multiplexMatch]
+  | .mux ms => by
+    simp only [stackMatch, Stack.leaves]
+    exact stackMatchL_flat env tbl S versioned r ms
+theorem stackMatchL_flat (env : Env) (tbl : Nat → Leaf) (S : Sorter) (versioned : Bool) (r : R) :
+    (ss : List Stack) → stackMatchL env tbl S versioned r ss = multiplexMatch env tbl (leavesL ss) S versioned r
+  | [] => by simp [stackMatchL, leavesL, multiplexMatch]
+  | s :: ss => by
+    simp only [stackMatchL, leavesL]
+    rw [stackMatch_flat env tbl S versioned r s, stackMatchL_flat env tbl S versioned r ss]
+    simp [multiplexMatch, List.flatMap_append]
+end
+
+/-- **a stack of stacks answers with the union of the answers of the repositories at its leaves**, however they are nested
+(as a multiset, like `multiplex_union`; for every restriction — in particular atoms pinned to a repository are just leaves
+that look at the package) -/
+theorem nested_multiplex_union (env : Env) (tbl : Nat → Leaf) (s : Stack) (S : Sorter) (hS : Lawful S)
+    (hwf : ∀ t ∈ s.leaves, WF t) (versioned : Bool) (r : R) (hk : atomsKeyed tbl r = true) (pk : Pkg) :
+    (pk ∈ stackMatch env tbl S versioned r s ↔ ∃ t ∈ s.leaves, pk ∈ answer env tbl t versioned r) ∧
+    (stackMatch env tbl S versioned r s).count pk =
+      (s.leaves.map fun t => (answer env tbl t versioned r).count pk).sum := by
+  rw [stackMatch_flat]
+  exact multiplex_union env tbl s.leaves S hS hwf versioned r hk pk
+
+/-- `multiplex.tree(multiplex.tree(a, b), multiplex.tree(), c)`: three leaves, all well-formed -/
+example :
+    let a : Repo := ⟨[(['a'], [(['x'], [['1'], ['2']])])]⟩
+    let b : Repo := ⟨[(['a'], [(['x'], [['1']])]), (['b'], [(['y'], [['3']])])]⟩
+    let c : Repo := ⟨[(['b'], [(['y'], [['3']])])]⟩
+    let s : Stack := .mux [.mux [.repo a, .repo b], .mux [], .repo c]
+    s.leaves = [a, b, c] ∧ ∀ t ∈ s.leaves, WF t := by
+  refine ⟨by simp [Stack.leaves, leavesL], ?_⟩
+  intro t ht
+  simp only [Stack.leaves, leavesL, List.append_nil, List.nil_append, List.cons_append, List.mem_cons, List.not_mem_nil, or_false] at ht
+  rcases ht with rfl | rfl | rfl <;> exact WF_of_wfCheck _ (by decide)
+
 end Pkgcore.C08
